@@ -22,6 +22,17 @@ def dassert (c : Bool) (site : String) : M Unit := do
 
 def logEv (e : Event) : M Unit := modify fun s => { s with log := e :: s.log }
 
+/-- every invocation of a user closure passes through here: the armed fault (if any) fires at the
+k-th invocation -/
+def tick : M Unit := do
+  match (← get).panicCountdown with
+  | none => pure ()
+  | some k =>
+    if k ≤ 1 then
+      modify fun s => { s with panicCountdown := none }
+      panic "user"
+    else modify fun s => { s with panicCountdown := some (k - 1) }
+
 /-! ## accessors -/
 
 def State.node? (s : State) (n : Nat) : Option Node := s.nodes[n]?
@@ -339,10 +350,12 @@ def shouldCutoff (env : Env) (n : Nat) (old new : Val) : M Bool := do
   | .never => pure false
   | .eq => pure (old == new)
   | .fn c => do
+    tick
     let r := env.cutoff c old new
     logEv (.cut c n old new r)
     pure r
   | .boxed c => do
+    tick
     let r := env.cutoff c old new
     logEv (.cut c n old new r)
     pure r
@@ -358,6 +371,7 @@ def edgeOnChange (env : Env) (e : Nat) (edge : ExpertEdge) : M Unit := do
     match (← get).value env edge.child with
     | none => pure ()
     | some v =>
+      tick
       let er ← getExpert e
       logEv (.inv s!"cb" er.node [v] s!"d{edge.dep}")
       modExpert e fun x => { x with slots := (edge.dep, v) :: x.slots.filter (·.1 != edge.dep) }
